@@ -139,6 +139,18 @@ func (c *Ctx) feOps(r *gen.Rand, a, b feOperand, heavy bool) {
 		v = new(field.Element).Pow22523(a.e)
 		ev("Pow22523")
 		c.checkFe(v, ref.FPow(a.v, pow22523Exp), "Pow22523", det)
+		// involutions applied in place, twice, on one object: 1/(1/a) = a, -(-a) = a
+		y := new(field.Element).Set(a.e)
+		y.Invert(y)
+		c.checkFe(y, ref.FInv(a.v), "Invert in place", det)
+		y.Invert(y)
+		ev("Invert-twice-in-place")
+		c.checkFe(y, a.v, "Invert applied twice in place", det)
+		y.Negate(y)
+		y.Negate(y)
+		c.checkFe(y, a.v, "Negate applied twice in place", det)
+		w := new(field.Element).Invert(y) // and once more from a different receiver
+		c.checkFe(w, ref.FInv(a.v), "Invert after in-place inversions", det)
 	}
 	// arguments are never modified (bit for bit)
 	if raw.ElementOK() && (raw.ElementBytes(a.e) != al || raw.ElementBytes(b.e) != bl) {
